@@ -45,6 +45,7 @@ def scope(ctx):
 
 
 def run(ctx):
+    prerun_walk_visits_every_cgroup(ctx)
     from .C15 import rate_definitions, psi_tables
     rate_definitions(ctx)
     psi_tables(ctx)          # kill_by_pressure ranks by what the PSI reader hands out
